@@ -7,6 +7,7 @@ import Enc.Lemmas.ThriftDepth
 import Enc.Lemmas.ThriftDeltaStop
 import Enc.Lemmas.ThriftStructEnd
 import Enc.Lemmas.ThriftDepthExact
+import Enc.Lemmas.ThriftAlloc
 /-!
 # C08 — thrift decoding is total, bounded and skips unknown fields
 Property theorems only.
@@ -272,5 +273,60 @@ example : Lemmas.ThriftSkip.WF (.slice (.slice (.int .i32)))
     Lemmas.ThriftDepthExact.vdepth (.slice (.slice (.int .i32)))
       (.list (.cons (.list (.cons (.int 5) .nil)) (.cons (.list .nil) .nil))) = 2 ∧
     9998 + 2 ≤ Gen.c_thrift_maxDepth ∧ ¬ (9999 + 2 ≤ Gen.c_thrift_maxDepth) := by decide +kernel
+
+/-! ## allocation: "memory allocated stays within a constant factor of the bytes actually available" — FALSE as coded
+(known finding `thrift-wire-size-alloc`; accounting model `Enc/Model/ThriftAlloc.lean`: `unmarshalA = (unmarshal, bytes
+requested by the allocation sites that size themselves from a number read off the wire)`) -/
+section Alloc
+open Lemmas.ThriftAlloc Lemmas.ThriftPrim
+
+/-- the accounting function does not change the decoder -/
+theorem unmarshalA_proj (p : Proto) (strict : Bool) (t : Ty) (b : Bytes) :
+    (unmarshalA p strict t b).1 = unmarshal p strict t b := rfl
+
+/-- **the witness family.** In EVERY protocol, strict or not, a list header announcing `n` int64 — followed by anything,
+also by nothing — makes `Unmarshal` into `[]int64` reserve `8·n` bytes before the first element is read
+(`reflect.MakeSlice(t, int(l.Size), int(l.Size))`), for every `n` up to the wire format's cap 2^31 − 1. -/
+theorem thrift_list_prealloc (p : Proto) (strict : Bool) (n : Nat) (hn : n ≤ 2147483647) (rest : Bytes) :
+    8 * n ≤ (unmarshalA p strict (.slice (.int .i64)) (wList p .i64 n ++ rest)).2 :=
+  Lemmas.ThriftAlloc.list_prealloc p strict n hn rest
+
+/-- likewise the length prefix of a string / binary: `make([]byte, n)` precedes `io.ReadFull` -/
+theorem thrift_bytes_prealloc (p : Proto) (strict : Bool) (n : Nat) (hn : n ≤ 2147483647) (rest : Bytes) :
+    n ≤ (unmarshalA p strict .str (wLength p n ++ rest)).2 :=
+  Lemmas.ThriftAlloc.bytes_prealloc p strict n hn rest
+
+/-- **MAIN (thrift_alloc_unbounded) — the negation of the clause, as a theorem about the code as written.** For the fixed
+target type `[]int64`, no bound `K·len(b) + K0` with constants below `8·(2^31 − 1)` ≈ 1.7·10^10 holds: there is a 5-byte
+input (binary protocol: element type 6 = I64 in this library's numbering, big-endian count) that exceeds it. The count cap 2^31 − 1 of the wire format is the
+only limit: the ratio allocated / available reaches 3.4·10^9. -/
+theorem thrift_alloc_unbounded (K K0 : Nat) (h : K * 5 + K0 < 8 * 2147483647) :
+    ∃ b : Bytes, b.length = 5 ∧
+      K * b.length + K0 < (unmarshalA (.binary true) false (.slice (.int .i64)) b).2 :=
+  Lemmas.ThriftAlloc.alloc_unbounded K K0 h
+
+/-- in the form `∀ K, ∃ t b, alloc > K·len(b)`, for every factor the wire format lets one collection reach -/
+theorem thrift_alloc_unbounded_factor (K : Nat) (h : K ≤ 3435973835) :
+    ∃ (t : Ty) (b : Bytes), K * b.length < (unmarshalA (.binary true) false t b).2 := by
+  obtain ⟨b, _, hb⟩ := thrift_alloc_unbounded K 0 (by omega)
+  exact ⟨.slice (.int .i64), b, by omega⟩
+
+/-- the witness is a 5-byte input, and the model's decoder rejects it after the reservation (non-vacuity) -/
+example : wList (.binary true) .i64 2147483647 = [0x06, 0x7f, 0xff, 0xff, 0xff] := by decide +kernel
+
+/- FULL STATEMENT (not proved): for every type without string / binary / list / set / map (pointers allowed), the count is
+   bounded by the total size of the pointees of the type, whatever the input (`reflect.New` runs once per nil pointer).
+   Proved below for the pointer-free part of that universe, where the count is 0. -/
+/-- **thrift_alloc_bounded_without_prealloc (partial: pointer-free universe).** For message types built from booleans,
+integers and floats (and named types / nested messages of those) NO input reaches an allocation site: the clause fails
+only through collections, strings and binaries. -/
+theorem thrift_alloc_bounded_without_prealloc_partial (p : Proto) (strict : Bool) (t : Ty) (b : Bytes)
+    (h : flatTy t = true) : (unmarshalA p strict t b).2 = 0 :=
+  Lemmas.ThriftAlloc.alloc_flat p strict t b h
+
+example : flatTy (.struct (.cons "A" "thrift:\"1\"" false (.int .i64)
+    (.cons "B" "thrift:\"2\"" false (.struct (.cons "X" "thrift:\"1\"" false .f64 .nil)) .nil))) = true := by decide
+
+end Alloc
 
 end Enc.Props.C08
